@@ -7,6 +7,7 @@ require (
 	buf.build/gen/go/bufbuild/registry/protocolbuffers/go v1.36.6-20250408145534-f5ce355693bb.1
 	connectrpc.com/connect v1.18.1
 	github.com/bufbuild/buf v0.0.0
+	github.com/bufbuild/protocompile v0.14.1
 	github.com/google/uuid v1.6.0
 	github.com/klauspost/compress v1.18.0
 	golang.org/x/crypto v0.37.0
@@ -23,7 +24,6 @@ require (
 	cel.dev/expr v0.23.1 // indirect
 	connectrpc.com/otelconnect v0.7.2 // indirect
 	github.com/antlr4-go/antlr/v4 v4.13.1 // indirect
-	github.com/bufbuild/protocompile v0.14.1 // indirect
 	github.com/bufbuild/protoplugin v0.0.0-20250218205857-750e09ce93e1 // indirect
 	github.com/bufbuild/protovalidate-go v0.9.3 // indirect
 	github.com/cpuguy83/go-md2man/v2 v2.0.6 // indirect
